@@ -184,6 +184,91 @@ pub mod verif_hooks {
                 .remove_remote(id, crate::agent::DisconnectionReason::RemoteTimedOut)
         }
     }
+
+    /// What the read task and the attachment task tell the write task.
+    pub enum WriteTaskInput {
+        Remote {
+            id: Uuid,
+            writer: ByteWriter,
+            completion: promise::Sender<crate::agent::DisconnectionReason>,
+        },
+        Link {
+            origin: Uuid,
+            lane: String,
+        },
+        Unlink {
+            origin: Uuid,
+            lane: String,
+        },
+        Stop,
+    }
+
+    /// The write task of the agent runtime on its own: the lanes are given as (name, kind, transient,
+    /// output channel of the lane), the state is persisted to `store`.
+    pub async fn run_write_task<S>(
+        identity: Uuid,
+        node_uri: &str,
+        runtime_config: crate::agent::AgentRuntimeConfig,
+        lanes: Vec<(
+            String,
+            swimos_api::agent::UplinkKind,
+            bool,
+            swimos_utilities::byte_channel::ByteReader,
+        )>,
+        messages: tokio::sync::mpsc::UnboundedReceiver<WriteTaskInput>,
+        stop_voter: crate::timeout_coord::Voter,
+        store: S,
+    ) -> Result<(), swimos_api::error::StoreError>
+    where
+        S: swimos_api::persistence::NodePersistence + Send + Sync + 'static,
+    {
+        use futures::StreamExt;
+        let configuration =
+            super::WriteTaskConfiguration::new(identity, Text::new(node_uri), runtime_config);
+        let endpoints = super::WriteTaskEndpoints::new(
+            lanes
+                .into_iter()
+                .map(|(name, kind, transient, reader)| {
+                    super::LaneEndpoint::new(Text::new(&name), kind, transient, reader, None)
+                })
+                .collect(),
+            vec![],
+        );
+        let stream = tokio_stream::wrappers::UnboundedReceiverStream::new(messages).map(|m| match m {
+            WriteTaskInput::Remote {
+                id,
+                writer,
+                completion,
+            } => WriteTaskMessage::Remote {
+                id,
+                writer,
+                completion,
+                on_attached: None,
+            },
+            WriteTaskInput::Link { origin, lane } => WriteTaskMessage::Coord(RwCoordinationMessage::Link {
+                origin,
+                lane: Text::new(&lane),
+            }),
+            WriteTaskInput::Unlink { origin, lane } => {
+                WriteTaskMessage::Coord(RwCoordinationMessage::Unlink {
+                    origin,
+                    lane: Text::new(&lane),
+                })
+            }
+            WriteTaskInput::Stop => WriteTaskMessage::Stop,
+        });
+        let (read_tx, _read_rx) = tokio::sync::mpsc::channel(8);
+        super::write_task(
+            configuration,
+            endpoints,
+            stream,
+            read_tx,
+            stop_voter,
+            None,
+            crate::agent::store::StorePersistence(store),
+        )
+        .await
+    }
 }
 
 pub use external_links::LinksTaskConfig;
